@@ -91,4 +91,40 @@ let handle (toks : string list) : (string * string * string) option =
     (* spec for the owner layer = the model with release-on-overwrite (what C15 demands) *)
     let r = "SEQ " ^ Buffer.contents buf in
     Some (r, r, "aown")
+  | "aown2" :: ops ->
+    (* two live sandboxes, a token table each (coq/AppPtr2.v) *)
+    let w = pow2 16 and max = Z.sub (pow2 16) (z_of_int 1) in
+    let buf = Buffer.create 64 in
+    let add s = if Buffer.length buf > 0 then Buffer.add_char buf ','; Buffer.add_string buf s in
+    let wd = ref { maps2 = [amap_init; amap_init]; owners2 = [None; None; None] } in
+    let stop = ref false in
+    let n k = nat_of_int (int_of_string k) in
+    List.iter (fun tok ->
+        if not !stop then
+          match String.split_on_char ':' tok with
+          | ["g"; k; s; p] ->
+            (match ostep2 w max !wd (OGet2 (n k, n s, zs p)) with
+             | Ok w' -> wd := w';
+               (match owner2_at w' (n k) with Some (_, i) -> add ("g=" ^ string_of_z i) | None -> add "g=?")
+             | _ -> add "g=ABORT"; stop := true)
+          | ["m"; a; b] ->
+            (match ostep2 w max !wd (OMove2 (n a, n b)) with
+             | Ok w' -> wd := w'; add "m=ok" | _ -> add "m=ABORT"; stop := true)
+          | ["d"; k] ->
+            (match ostep2 w max !wd (ODestroy2 (n k)) with
+             | Ok w' -> wd := w'; add "d=ok" | _ -> add "d=ABORT"; stop := true)
+          | ["u"; k] -> add (match owner2_at !wd (n k) with None -> "u=1" | Some _ -> "u=0")
+          | ["l"; k] ->
+            (* an inert owner's to_tainted() is null: representation 0 -> entry 0 -> nullptr (table of sandbox 0 or of the
+               sandbox it last belonged to: entry 0 is nullptr in every table) *)
+            let (s, tk) = (match owner2_at !wd (n k) with Some (s, i) -> (s, i) | None -> (nat_of_int 0, Z0)) in
+            (match lookup_index tk (map_at !wd s) with
+             | Ok v -> add ("l=" ^ string_of_z v ^ "@" ^ string_of_z tk)
+             | _ -> add "l=ABORT"; stop := true)
+          | ["t"; s; tk] ->
+            (match lookup_index (zs tk) (map_at !wd (n s)) with
+             | Ok v -> add ("t=" ^ string_of_z v) | _ -> add "t=ABORT"; stop := true)
+          | _ -> failwith "aown2 op") ops;
+    let r = "SEQ " ^ Buffer.contents buf in
+    Some (r, r, "aown2")
   | _ -> None
